@@ -103,14 +103,14 @@ Proof. exact wur_spec. Qed.
 Print Assumptions C16_wait_until_reconciled.
 
 (* WaitUntilReconciled(req) returns nil only after every change <= req has been attempted: in every
-   reachable state of a single-mode reconciler (any history of writes, faults, timings) the reported
+   reachable state of the reconciler (single or batch mode, any history of writes, faults, timings) the reported
    revision k_prev is at most the change cursor (the revision of the last change delivered in a completed
    round), and every object with revision <= k_prev is no longer Pending/Refreshing (its status was written
    by a status commit, i.e. after an Update of that version: C15_commit_effect) and every deletion with
    revision <= k_prev has been handed to Delete/DeleteBatch at least once (Acall: a call in the log).
-   (Batch mode is not covered by the proof; the Go oracles wur-ok-before-change-attempted and
-   progress-revision-ahead-of-attempts check both modes on every run.) *)
-Theorem C16_wur_only_after_attempted : forall cf st, cf_batch cf = false -> reach cf st ->
+   (The Go oracles wur-ok-before-change-attempted and progress-revision-ahead-of-attempts check the same
+   on the implementation on every run.) *)
+Theorem C16_wur_only_after_attempted : forall cf st, reach cf st ->
   k_prev (snd st) <= k_cursor (snd st) /\ attempted_upto (fst st) (snd st) /\
   forall req, snd (wur (snd st) req) = true -> forall pk sl, slot_of (e_tab (fst st)) pk = Some sl -> slot_rev sl <= req ->
     match sl with Live o _ => is_pending o = false | Dead _ r => Acall (fst st) pk r end.
